@@ -2,10 +2,16 @@ package sim
 
 import (
 	"cosmossdk.io/collections"
+	"crypto/sha256"
 
 	sdk "github.com/cosmos/cosmos-sdk/types"
 )
 
 func collJoinReport(queryId []byte, reporter sdk.AccAddress, height uint64) collections.Pair[[]byte, collections.Pair[[]byte, uint64]] {
 	return collections.Join(queryId, collections.Join(reporter.Bytes(), height))
+}
+
+func sha256sum(b []byte) []byte {
+	h := sha256.Sum256(b)
+	return h[:]
 }
